@@ -247,4 +247,5 @@ func C18(c *Ctx) {
 		}
 	}
 	c.loggerOptionRule("C18-6")
+	c.trailingArgsRule("C18-7")
 }
